@@ -4,6 +4,7 @@ sys.path.insert(0, os.path.dirname(os.path.abspath(__file__)))
 import gen_scalar
 import gen_py
 import gen_colors
+import gen_tables
 
 REPO = os.environ.get("VERIF_REPO", "/repo")
 GEN = "/verif/coq/Gen"
@@ -18,6 +19,9 @@ def main():
     status.update(st)
     text, st = gen_colors.generate(REPO)
     gen_scalar.write_if_changed(os.path.join(GEN, "Colors_gen.v"), text)
+    status.update(st)
+    text, st = gen_tables.generate(REPO)
+    gen_scalar.write_if_changed(os.path.join(GEN, "Tables_gen.v"), text)
     status.update(st)
     for k, v in status.items():
         print(k, v)
